@@ -121,3 +121,4 @@ Proof.
   intros I i q Hn. destruct (chain_index None (points p) None (iw_links p I) i q Hn) as [A B].
   split; [exact A|]. rewrite B. destruct (nth_error (points p) (S i)); auto.
 Qed.
+
